@@ -14,7 +14,7 @@ RULE = ("seeded histories of 1-4 SMGen calls in one process on generated designs
         ">=1 call returned >=1 sequence; distinct = (design skeletons, timer mode, delivery)")
 ASSUMPTIONS = ["reference semantics (sim/refsem.py) reads the documentation correctly",
                "line events of scattered_map_core.py are the pre-emption points at which the timer can fire"]
-BUDGET = {"quick": 45, "thorough": 900}
+BUDGET = {"quick": 300, "thorough": 900}
 RUNS = {"quick": 3000, "thorough": 180000}
 
 
